@@ -192,6 +192,8 @@ def run_corpus(ctx):
         if bad:
             ctx.violation("corpus", "defect %s is back (%s): spec %r env %r argv %r %s"
                           % (e["id"], e["note"], c["root"]["spec"], c["env"], c["argv"], bad), case=c)
+        elif b["outcome"][0] == "model-error":
+            ctx.timeouts += 1       # the model's plain search exceeds its time limit where the library's memoised one does not (D10)
         elif (a["outcome"], a["trace"]) != (b["outcome"], b["trace"]):
             ctx.mismatch("corpus %s: Impl and model differ" % e["id"], case=c, impl=a["outcome"], model=b["outcome"])
     ctx.stream("corpus of repaired defects", len(cases), ids=[e["id"] for e in entries])
